@@ -5,6 +5,7 @@ go 1.24.0
 require (
 	deps.dev/util/resolve v0.0.0-20250310223405-f4cf91c9e684
 	github.com/gobwas/glob v0.2.3
+	github.com/google/go-containerregistry v0.19.1
 	github.com/google/osv-scalibr v0.0.0
 	github.com/ossf/osv-schema/bindings/go v0.0.0-20250210065807-ab8a4f6e6389
 	github.com/package-url/packageurl-go v0.1.2
@@ -47,7 +48,6 @@ require (
 	github.com/go-logr/stdr v1.2.2 // indirect
 	github.com/gogo/protobuf v1.3.2 // indirect
 	github.com/google/go-cmp v0.7.0 // indirect
-	github.com/google/go-containerregistry v0.19.1 // indirect
 	github.com/google/uuid v1.6.0 // indirect
 	github.com/groob/plist v0.1.1 // indirect
 	github.com/jbenet/go-context v0.0.0-20150711004518-d14ea06fba99 // indirect
